@@ -15,6 +15,26 @@ CHECKS = {
             "then responses turn well-formed and a block must be committed within 3 steps. Sampling over a large space, not proof.",
             "Execution and sequencing layers are doubles; the disk is simulated; lazy vs normal mode only changes when publishBlock is called (loops themselves are C17/C13).",
             "DESIGN.md §5 C01", "stepsim"),
+    "C02": ("exploration",
+            "deterministic simulation: real follower loops (DA retrieve, P2P store polling, sync) in a synctest bubble; harness-decided blob placement, event order, duplication and clean restarts; prefix-equality oracle against a real proposer's chain",
+            "A real aggregator produces a seeded chain; a real follower receives header/data parts via seeded DA placements, P2P store advances, arbitrary-order and duplicated deliveries to the sync loop and clean restarts; after every delivery the applied prefix must equal the proposer's chain (hashes, tx lists, state root), be gap-free, applied in height order, and (restart-free runs) sit at exactly the largest height whose parts were all delivered; finally everything is delivered and the follower must reach the proposer's height. Sampling, not proof.",
+            "P2P stores are harness doubles with genuine contents; go-header/libp2p transport is exercised only in Engine N.",
+            "DESIGN.md §5 C02", "stepsim"),
+    "C04": ("fault_enumeration",
+            "deterministic simulation with crash-point enumeration: every durable-write boundary of a production step (nested depth 2-3) on the real aggregator over a journalled simulated disk; restart with real NewManager; bounded-liveness and exposed-block oracles",
+            "For seeded history prefixes every durable-write boundary of the target production step is a crash point and, for each, every boundary of the first recovery production (depth 3 in part of thorough); each member is executed from scratch, restarted with the real start-up code, must produce within 3 steps, keep every committed/published block, and end with a valid chain whose height/state/blocks agree. Exhaustive over boundaries of the enumerated steps, sampled over histories.",
+            "Crash = process death with ordered durable writes and atomic batches; cache-file torn states are enumerated from an strace recording when that sub-check is enabled.",
+            "DESIGN.md §5 C04", "stepsim"),
+    "C05": ("fault_enumeration",
+            "deterministic simulation with crash-point enumeration: every durable-write boundary of block application on a real follower (nested depth 2), restart, seeded re-delivery order, prefix-equality oracle",
+            "For seeded chains every durable-write boundary of the triggering block application (1-3 blocks applied at once) is a crash point and, for each, every boundary of the seeded re-delivery phase is a nested crash point; after every restart the image must have a proposer-identical block for every height up to the recorded chain height and a state for exactly that height; finally the follower must reach the proposer's chain. Exhaustive over boundaries of the enumerated applications, sampled over chains.",
+            "Crash = process death with ordered durable writes and atomic batches.",
+            "DESIGN.md §5 C05", "stepsim"),
+    "C11": ("fault_enumeration",
+            "deterministic simulation with crash-point enumeration: every durable-write boundary of a marked reap/production step in seeded tx-arrival histories with refusals; drain; ledger oracle (taken from mempool vs committed chain) and release-order oracle",
+            "Seeded histories of tx arrivals (incl. repeats), reaps, productions, restarts and kills with queue bound 1..8; one marked reap or production has every durable-write boundary enumerated as crash point; after a drain every distinct transaction the mempool ever handed to the node must be in a committed block, non-empty blocks must follow the sequencer's release order, and without crashes nothing is included more often than injected.",
+            "Mempool is the execution double (non-draining GetTxs per interface contract). Two crash boundaries that lose a batch are genuine, unrepaired defects listed in known_findings.json.",
+            "DESIGN.md §5 C11", "stepsim"),
     "C10": ("exploration",
             "deterministic simulation: seeded submit/next/restart/crash histories on the real single sequencer over a simulated journalled disk vs a FIFO model; porcupine linearizability check of concurrent histories",
             "Seeded histories (identical contents, empty, foreign chain id, beyond the bound, restart = new sequencer on the durable image, crash cutting the durable write inside an operation) are checked operation by operation against a FIFO model with candidate sets for undetermined operations, "
